@@ -142,9 +142,9 @@ func (e *ctxEval) desc1(v ssa.Value, stack []*ssa.Call, d int) string {
 		}
 		switch a := x.X.(type) {
 		case *ssa.Alloc:
-			return e.cell(a, stack, d+1)
+			return e.cell(a, x, stack, d+1)
 		case *ssa.FieldAddr:
-			return e.fieldOfAddr(a.X, a.Field, stack, d+1)
+			return e.fieldOfAddrAt(a.X, a.Field, x, stack, d+1)
 		}
 	}
 	return "other"
@@ -181,12 +181,16 @@ func (e *ctxEval) descCall(call *ssa.Call, res int, stack []*ssa.Call, d int) st
 
 // cell: the value held by a local variable: the single store into it (a
 // second store makes it a merge).
-func (e *ctxEval) cell(al *ssa.Alloc, stack []*ssa.Call, d int) string {
+func (e *ctxEval) cell(al *ssa.Alloc, at ssa.Instruction, stack []*ssa.Call, d int) string {
 	var parts []string
+	var sts []*ssa.Store
 	for _, ref := range *al.Referrers() {
 		if st, ok := ref.(*ssa.Store); ok && st.Addr == ssa.Value(al) {
-			parts = append(parts, e.desc(st.Val, stack, d+1))
+			sts = append(sts, st)
 		}
+	}
+	for _, st := range liveStores(sts, at) {
+		parts = append(parts, e.desc(st.Val, stack, d+1))
 	}
 	if len(parts) == 0 {
 		return "other"
@@ -201,12 +205,19 @@ func (e *ctxEval) cell(al *ssa.Alloc, stack []*ssa.Call, d int) string {
 
 // fieldOfAddr: field #f of the struct at address base.
 func (e *ctxEval) fieldOfAddr(base ssa.Value, f int, stack []*ssa.Call, d int) string {
+	return e.fieldOfAddrAt(base, f, nil, stack, d)
+}
+
+// fieldOfAddrAt: as fieldOfAddr, for a read at instruction at (nil: unknown):
+// for a local struct only the stores that can still be in force there count.
+func (e *ctxEval) fieldOfAddrAt(base ssa.Value, f int, at ssa.Instruction, stack []*ssa.Call, d int) string {
 	if d > ctxEvalDepth {
 		return "other"
 	}
 	switch b := base.(type) {
 	case *ssa.Alloc:
 		var parts []string
+		var sts []*ssa.Store
 		for _, ref := range *b.Referrers() {
 			switch x := ref.(type) {
 			case *ssa.FieldAddr:
@@ -215,13 +226,20 @@ func (e *ctxEval) fieldOfAddr(base ssa.Value, f int, stack []*ssa.Call, d int) s
 				}
 				for _, r2 := range *x.Referrers() {
 					if st, ok := r2.(*ssa.Store); ok && st.Addr == ssa.Value(x) {
-						parts = append(parts, e.desc(st.Val, stack, d+1))
+						sts = append(sts, st)
 					}
 				}
 			case *ssa.Store:
 				if x.Addr == ssa.Value(b) {
-					parts = append(parts, e.field(x.Val, f, stack, d+1))
+					sts = append(sts, x)
 				}
+			}
+		}
+		for _, st := range liveStores(sts, at) {
+			if st.Addr == ssa.Value(b) {
+				parts = append(parts, e.field(st.Val, f, stack, d+1))
+			} else {
+				parts = append(parts, e.desc(st.Val, stack, d+1))
 			}
 		}
 		if len(parts) == 0 {
@@ -308,7 +326,7 @@ func (e *ctxEval) field(sv ssa.Value, f int, stack []*ssa.Call, d int) string {
 	switch x := sv.(type) {
 	case *ssa.UnOp:
 		if x.Op == token.MUL {
-			return e.fieldOfAddr(x.X, f, stack, d+1)
+			return e.fieldOfAddrAt(x.X, f, x, stack, d+1)
 		}
 	case *ssa.Parameter:
 		if len(stack) > 0 {
@@ -459,4 +477,57 @@ func fieldNameOf(t types.Type, f int) string {
 		return st.Field(f).Name()
 	}
 	return fmt.Sprintf("#%d", f)
+}
+
+// liveStores: of the stores into one local location, those that can be in
+// force at instruction at of the same function: a store that cannot reach at
+// is dropped, and so is one that another store overwrites on every path to
+// at (it dominates that store, which dominates at). With at == nil, or in
+// another function (a captured variable), all of them.
+func liveStores(sts []*ssa.Store, at ssa.Instruction) []*ssa.Store {
+	if at == nil || len(sts) < 2 {
+		return sts
+	}
+	before := func(a, b ssa.Instruction) bool { // a precedes b in one block
+		for _, in := range a.Block().Instrs {
+			if in == a {
+				return true
+			}
+			if in == b {
+				return false
+			}
+		}
+		return false
+	}
+	dom := func(a, b ssa.Instruction) bool {
+		if a.Block() == b.Block() {
+			return before(a, b)
+		}
+		return a.Block().Dominates(b.Block())
+	}
+	reaches := func(s *ssa.Store) bool {
+		if s.Block() == at.Block() {
+			return before(s, at) || ssau.Reachable(s.Block(), at.Block(), nil)
+		}
+		return ssau.Reachable(s.Block(), at.Block(), nil)
+	}
+	var out []*ssa.Store
+	for _, s := range sts {
+		if s.Parent() != at.Parent() {
+			return sts
+		}
+		if !reaches(s) {
+			continue
+		}
+		killed := false
+		for _, k := range sts {
+			if k != s && dom(s, k) && dom(k, at) {
+				killed = true
+			}
+		}
+		if !killed {
+			out = append(out, s)
+		}
+	}
+	return out
 }
